@@ -11,8 +11,13 @@ import (
 	"github.com/rogpeppe/go-internal/internal/verifrt/vfs"
 )
 
+// vNow is the instant at which Trim runs; the harness picks it from vEpochs
+// (before and after 2^31 and 2^32 seconds), all ages are relative to it.
+var vNow = int64(1700000000)
+
+var vEpochs = []int64{1700000000, 2200000000, 4400000000}
+
 const (
-	vNow   = int64(1700000000)
 	vDay   = int64(86400)
 	vHour  = int64(3600)
 	vRange = 20 * vDay
@@ -39,6 +44,10 @@ type vEntryFile struct {
 // symbolic modification times, any last-trim record, optional preceding
 // lookups; Trim runs at a fixed "now" (all ages are relative to it).
 func VerifC13Trim() {
+	vNow = vEpochs[rt.IntRange(0, rt.Param("EPOCHS", 1))]
+	if vNow >= 1<<31 {
+		rt.Reach("clock-past-2038")
+	}
 	fsys := vfs.New()
 	fsys.NowSec = vNow
 	c := vNewCache(fsys)
@@ -76,9 +85,9 @@ func VerifC13Trim() {
 	case 1: // well-formed decimal digits (symbolic), optional surrounding blanks
 		// 10 decimal digits: a concrete 4-digit head (both sides of "now")
 		// and 6 symbolic digits: +-11 days around now at second resolution
-		head := "1699"
+		head := strconv.FormatInt(vNow/1000000-1, 10)
 		if rt.Bool() {
-			head = "1700"
+			head = strconv.FormatInt(vNow/1000000, 10)
 		}
 		digits := append([]byte(head), rt.Bytes(6)...)
 		for _, d := range digits[4:] {
